@@ -21,6 +21,7 @@ HOSTS = {
 # a host with four arguments, used for the chained applications only
 HOST4 = (lambda v: f'<math><mrow{v}><mn arg="a">11.3</mn><mo>+</mo><mn arg="b">12.7</mn><mo>+</mo><mn arg="c">16.8</mn><mo>+</mo><mn arg="d">17.4</mn></mrow></math>',
          {"a": "11.3", "b": "12.7", "c": "16.8", "d": "17.4"})
+PROPS_ON_ARGS = ["frob(7:p,$a)", "frob($a:p,$b)", "frob($a,8:p:q)", "frob(-3.5:p)", "frob(9:p)", "frob($a:p:q,$b:p)", "frob($a, 7:p )", "frob(2:p,3:q,$b)"]
 CHAINS = ["frob($a)($b)", "frob($a)($b)($c)", "frob($a)($b)($c)($d)", "frob($a,$b)($c)", "frob($a)($b,$c)", "frob($a)($b,$c)($d)", "frob($a,$b)($c,$d)", "frob($a)(7)($b)(8)",
           "frob($a)($b)(9)", "frob(7)(8)(9)", "frob($d)($c)($b)($a)", "frob($a,$b,$c)($d)", "frob($a)($b,$c,$d)", "frob($a)($b)($c)($d)(7)(8)"]
 
@@ -171,8 +172,18 @@ def classify(s, args):
             return "core"
     if (len(toks) >= 4 and kinds[0] == "name" and toks[0][1] == NAME and kinds[1] == "(" and kinds[-1] == ")"
             and len(set(refs)) == len(refs)):
-        inner = toks[2:-1]
-        ok = len(inner) % 2 == 1
+        inner = [t for t in toks[2:-1]]
+        # an argument (reference or number) may carry properties: strip them before looking at the list shape
+        stripped, prev_arg, okp = [], False, True
+        for t in inner:
+            if t[0] == "prop":
+                if not prev_arg:
+                    okp = False
+                continue
+            stripped.append(t)
+            prev_arg = t[0] in ("ref", "num")
+        inner = stripped
+        ok = okp and len(inner) % 2 == 1
         for j, t in enumerate(inner):
             if j % 2 == 0 and t[0] not in ("ref", "num"):
                 ok = False
@@ -350,7 +361,7 @@ def main(tier):
     sets.append(NESTED)
     allstr = sorted(set(s for st in sets for s in st), key=lambda x: (len(x), x))
     run.count("distinct_strings", len(allstr))
-    jobs = [("mrow4", list(CHAINS))]
+    jobs = [("mrow4", list(CHAINS) + list(PROPS_ON_ARGS)), ("mrow", list(PROPS_ON_ARGS)), ("msup", list(PROPS_ON_ARGS))]
     for host in HOSTS:
         for i in range(0, len(allstr), 250):
             jobs.append((host, allstr[i:i + 250]))
